@@ -4,12 +4,13 @@
 # VERIF_REPO override, worktree removed afterwards. Expected result: exit 1 (the change is detected).
 set -u
 export GOFLAGS=-mod=mod GOPROXY=off GOSUMDB=off GOTOOLCHAIN=local
+ROOT="$(cd "$(dirname "$0")/.." && pwd)"
 seed="$1"; id="${2:-}"; [ -z "$id" ] && id="${seed%%-*}"; tier="${3:-quick}"
 wt="/tmp/wt-seed-$seed"
 git -C /repo worktree remove --force "$wt" >/dev/null 2>&1
 git -C /repo worktree add -q --detach "$wt" || exit 3
-if ! git -C "$wt" apply "/verif/seeded/$seed/patch.diff"; then echo "SEED $seed: patch does not apply to the current tree"; git -C /repo worktree remove --force "$wt"; exit 4; fi
-VERIF_REPO="$wt" /verif/check "$id" "$tier" > "/tmp/seedcheck-$seed.out" 2>&1; rc=$?
+if ! git -C "$wt" apply "$ROOT/seeded/$seed/patch.diff"; then echo "SEED $seed: patch does not apply to the current tree"; git -C /repo worktree remove --force "$wt"; exit 4; fi
+VERIF_REPO="$wt" "$ROOT/check" "$id" "$tier" > "/tmp/seedcheck-$seed.out" 2>&1; rc=$?
 echo "SEED $seed: check $id $tier exit=$rc  $(grep -c '^VIOLATION' /tmp/seedcheck-$seed.out) violation line(s); $(grep '^property=' /tmp/seedcheck-$seed.out)"
 grep -A2 '^VIOLATION' "/tmp/seedcheck-$seed.out" | head -4 | cut -c1-220
 git -C /repo worktree remove --force "$wt" >/dev/null 2>&1
